@@ -32,7 +32,14 @@ def parse_cases(out):
 
 def gen_triples(ctx, cfg, record=True, timeout=5400):
     """Exhaustive enumeration: TLC prints CaseRec for every (delta, base, left, right) of the config."""
-    res = ctx.tlc_check(MODULE, cfg, record=record, timeout=timeout)
+    # the generators are TLC runs too: they must run even when the exhaustive model checking is skipped for development
+    skip = os.environ.pop("VERIF_DEV_SKIP_TLC", None)
+    try:
+        res = ctx.tlc_check(MODULE, cfg, record=record, timeout=timeout)
+    finally:
+        if skip is not None:
+            os.environ["VERIF_DEV_SKIP_TLC"] = skip
+            ctx.dev_skip = True
     cs = parse_cases(res["out"])
     if not cs:
         raise vlib.Inconclusive("TLC emitted no cases for " + cfg)
@@ -116,7 +123,7 @@ def make_batches(ctx, cases, mode, paths, batch, binder, extra=None, check_ops=T
 
 def single(bc, i):
     s = dict(bc["subs"][i])
-    return {"mode": bc["mode"], "paths": bc["paths"], "checkOps": bc.get("checkOps", True), "isolate": False, "subs": [s]}
+    return {"mode": bc["mode"], "paths": bc["paths"], "checkOps": bc.get("checkOps", True), "isolate": False, "nostats": bc.get("nostats", False), "subs": [s]}
 
 
 def fingerprint(pid, bc, sub, f):
@@ -351,3 +358,44 @@ def stratified_sample(rng, cases, n):
             break
         pick.add(i)
     return [cases[i] for i in sorted(pick)]
+
+
+# ---------------------------------------------------------------------------------------------------------------
+# chunk-edge ("scatter") binding of the amplified c30 engine mode: pure-update triples on a dense multi-leaf table whose
+# model keys are bound to the first / middle / LAST keys of three consecutive leaf chunks (read from the real tree)
+def _rows(t):
+    return {r["k"]: r["r"] for r in t}
+
+
+def pure_update(c):
+    b, l, r = _rows(c["base"]), _rows(c["left"]), _rows(c["right"])
+    return c["delta"]["kind"] == "none" and set(b) == set(l) == set(r) == {1, 2} and all(v != 0 for t in (b, l, r) for row in t.values() for v in row[:2])
+
+
+def disjoint_edits(c):
+    """left edits exactly one key, right exactly the other one"""
+    if not pure_update(c):
+        return False
+    b, l, r = _rows(c["base"]), _rows(c["left"]), _rows(c["right"])
+    lc = {k for k in b if l[k] != b[k]}
+    rc = {k for k in b if r[k] != b[k]}
+    return len(lc) == 1 and len(rc) == 1 and lc != rc
+
+
+def scatter_batches(ctx, tri, n_disjoint, n_other, nostats=False):
+    dj = [c for c in tri if disjoint_edits(c)]
+    ot = [c for c in tri if pure_update(c) and not disjoint_edits(c) and c["left"] != c["base"] and c["right"] != c["base"]]
+    ctx.rng.shuffle(dj)
+    ctx.rng.shuffle(ot)
+    # the same triple is worth running on several chunk triples (the binding, not the values, decides which tree path runs)
+    cases = (dj * (1 + n_disjoint // max(1, len(dj))))[:n_disjoint] + ot[:n_other]
+
+    def binder(rng, c, name):
+        return {"name": name, "pk": "int", "types": {"1": "int", "2": "int", "3": "int"}, "index": False}
+
+    def extra(rng, c):
+        return {"amp": {"R": 1, "F": rng.choice([2500, 3500, 5000]), "seed": rng.randrange(1 << 30), "scatter": True}}
+    bs = make_batches(ctx, cases, "c30", [], 4, binder, extra=extra)
+    for b in bs:
+        b["nostats"] = nostats
+    return bs, len(cases)
